@@ -27,14 +27,6 @@ open MakoModel.Basic
 
 /-! ## the control-line regex -/
 
-/-- `((?:(?:\\\r?\n)|[^\r\n])*)`: greedy; backslash-newline is part of the text, a bare CR or LF ends it.
-    Returns the text and what follows it. -/
-def ctlBody : Str → Str × Str
-  | '\\' :: '\n' :: r => let (t, k) := ctlBody r; ('\\' :: '\n' :: t, k)
-  | '\\' :: '\r' :: '\n' :: r => let (t, k) := ctlBody r; ('\\' :: '\r' :: '\n' :: t, k)
-  | c :: r => if c == '\r' || c == '\n' then ([], c :: r) else let (t, k) := ctlBody r; (c :: t, k)
-  | [] => ([], [])
-
 /-- `(?:\r?\n|\Z)` -/
 def ctlEnd : Str → Bool
   | [] => true
@@ -42,10 +34,33 @@ def ctlEnd : Str → Bool
   | '\r' :: '\n' :: _ => true
   | _ => false
 
+/-- `((?:(?:\\\r?\n)|[^\r\n])*)(?:\r?\n|\Z)`: the text of the line.  The star is greedy and each round tries
+    backslash-newline first (it is part of the text), then any character but CR / LF; when the rest cannot be
+    matched the engine backs out of the last choice - e.g. in `\⏎` followed by a lone CR the backslash is taken as an
+    ordinary character and the newline ends the line.  `none`: no way to reach the end of a line. -/
+def ctlMatchF : Nat → Str → Option Str
+  | 0, _ => none
+  | _ + 1, [] => some []
+  | n + 1, c :: r =>
+    -- first alternative: backslash-newline, then the rest of the line
+    let a1 : Option Str :=
+      if c == '\\' then
+        match r with
+        | '\n' :: r' => (ctlMatchF n r').map fun t => '\\' :: '\n' :: t
+        | '\r' :: '\n' :: r' => (ctlMatchF n r').map fun t => '\\' :: '\r' :: '\n' :: t
+        | _ => none
+      else none
+    match a1 with
+    | some t => some t
+    | none =>
+      if c == '\r' || c == '\n' then (if ctlEnd (c :: r) then some [] else none)
+      else (ctlMatchF n r).map fun t => c :: t
+
+def ctlMatch (s : Str) : Option Str := ctlMatchF (s.length + 1) s
+
 /-- `[\t ]*(text)(?:\r?\n|\Z)` after the operator -/
 def lexRest (isComment : Bool) (r : Str) : Option (Bool × Str) :=
-  let (t, k) := ctlBody (r.dropWhile isBlank)
-  if ctlEnd k then some (isComment, t) else none
+  (ctlMatch (r.dropWhile isBlank)).map fun t => (isComment, t)
 
 /-- `match_control_line` at the start of a line: `[\t ]*(%(?!%)|##)[\t ]*(text)(?:\r?\n|\Z)`.
     `some (isComment, text)`; `none`: the line is not a control line. -/
@@ -83,8 +98,9 @@ inductive Leaf
       `loopRef`: `LoopVariable` finds `loop` in it or below it; `inner`: the nodes inside it when it is a tag (the
       lexer hangs them under the enclosing control line as well) -/
   | stmt (line : Str) (loopRef : Bool) (inner : List CKind)
-  /-- `<% %>`: written through `write_indented_block` -/
-  | block (text : Str) (loopRef : Bool)
+  /-- `<% %>`: written through `write_indented_block`; `store = some names`: the block sits in the body of the
+      template, which assigns variables – `visitCode` then writes the two lines that copy them into `__M_locals` -/
+  | block (text : Str) (loopRef : Bool) (store : Option Str)
   /-- a node that writes nothing in place: `<%def>`, `<%! %>`, `<%namespace>`, `<%page>`, `<%inherit>`, an empty
       `<%text>` -/
   | silent (loopRef : Bool) (inner : List CKind)
@@ -111,7 +127,7 @@ instance : Inhabited CT := ⟨.nil⟩
 def Leaf.kinds : Leaf → List CKind
   | .comment => [.comment]
   | .stmt _ _ inner => .other :: inner
-  | .block _ _ => [.other]
+  | .block _ _ _ => [.other]
   | .silent _ inner => .other :: inner
 
 /-- the nodes a body contributes to the `nodes` list of the control line it belongs to -/
@@ -170,7 +186,7 @@ def passRule (node : Str) (cs : List CKind) : Bool :=
 def Leaf.loopRef : Leaf → Bool
   | .comment => false
   | .stmt _ r _ => r
-  | .block _ r => r
+  | .block _ r _ => r
   | .silent r _ => r
 
 mutual
@@ -213,10 +229,16 @@ def loopPrologue (lc : Bool) (hdr : Hdr) : List Ev :=
     | none => []
   else []
 
+def storeLine1 : Str := "__M_locals_builtin_stored = __M_locals_builtin()".toList
+def storeLine2 (names : Str) : Str :=
+  "__M_locals.update(__M_dict_builtin([(__M_key, __M_locals_builtin_stored[__M_key]) for __M_key in [".toList ++ names ++
+    "] if __M_key in __M_locals_builtin_stored]))".toList
+
 def Leaf.emit : Leaf → List Ev
   | .comment => []
   | .stmt l _ _ => [.wl (some l)]
-  | .block t _ => [.blk t]
+  | .block t _ none => [.blk t]
+  | .block t _ (some names) => [.blk t, .wl (some storeLine1), .wl (some (storeLine2 names))]
   | .silent _ _ => []
 
 def passEv (b : Bool) : List Ev := if b then [.wl (some passLine)] else []
@@ -250,7 +272,8 @@ def Leaf.prog (k : Leaf) (rest : Prog) : Prog :=
   match k with
   | .comment => rest
   | .stmt l _ _ => .line false l rest
-  | .block t _ => .line true t rest
+  | .block t _ none => .line true t rest
+  | .block t _ (some names) => .line true t (.line false storeLine1 (.line false (storeLine2 names) rest))
   | .silent _ _ => rest
 
 mutual
